@@ -264,7 +264,7 @@ def setup(ctx):
     from smartquery import functions
     ctx.P = SqParser()
     ctx.W = W = Watch(ctx)
-    M1 = monitors.NodeMonitor()
+    ctx.M1 = M1 = monitors.NodeMonitor()
     M1.on_enter, M1.on_exit, M1.on_raise = W.enter, W.exit, W.raised
     F = functions.FUNCTIONS
     F['__setitem__'] = W.setitem(F['__setitem__'], False)
@@ -286,6 +286,7 @@ def cases(ctx):
 
 def run_case(case, ctx):
     W = ctx.W
+    ctx.M1.lambdas.clear()
     if case[0] == 'repo-tests':
         # the repository's own tests as a workload for the ownership monitors (every assignment form they execute is judged)
         from lib import repotests
